@@ -139,3 +139,44 @@ pub fn pts_coq(v: &[Point3D]) -> String {
     let f: Vec<Float> = v.iter().flat_map(|p| vec![p.x, p.y, p.z]).collect();
     sfs(&f)
 }
+
+// ---------------------------------------------------------------------------------------------
+// additions for C05 / C10
+// ---------------------------------------------------------------------------------------------
+
+pub fn cross2(a: P2, b: P2, c: P2) -> f64 { (b.0 - a.0) * (c.1 - b.1) - (b.1 - a.1) * (c.0 - b.0) }
+/// every cyclically consecutive triple is either collinear by construction (|cross| < 1e-9) or a genuine
+/// corner (|cross| >= min_cross, well above the library's collinearity tolerance 1e-5); edges not shorter than 1e-3
+pub fn corners_ok(p: &[P2], min_cross: f64) -> bool {
+    let n = p.len();
+    if n < 3 { return false; }
+    for i in 0..n {
+        let (a, b, c) = (p[i], p[(i + 1) % n], p[(i + 2) % n]);
+        let cr = cross2(a, b, c).abs();
+        if !(cr < 1e-9 || cr >= min_cross) { return false; }
+        if ((b.0 - a.0).powi(2) + (b.1 - a.1).powi(2)).sqrt() < 1e-3 { return false; }
+    }
+    true
+}
+/// a rigid motion built from the crate's own constructors: rotations about the three axes by arbitrary angles, then a translation
+pub fn rigid_motion(r: &mut Rng, max_shift: f64) -> Transform {
+    let mut t = Transform::translate(r.range(-max_shift, max_shift) as Float, r.range(-max_shift, max_shift) as Float, r.range(-max_shift, max_shift) as Float);
+    t *= Transform::rotate_z(r.range(-180.0, 180.0) as Float);
+    t *= Transform::rotate_y(r.range(-180.0, 180.0) as Float);
+    t *= Transform::rotate_x(r.range(-180.0, 180.0) as Float);
+    t
+}
+pub fn bbox2(p: &[P2]) -> (f64, f64, f64, f64) {
+    let mut b = (f64::MAX, f64::MAX, f64::MIN, f64::MIN);
+    for q in p { b.0 = b.0.min(q.0); b.1 = b.1.min(q.1); b.2 = b.2.max(q.0); b.3 = b.3.max(q.1); }
+    b
+}
+/// a point well inside the polygon (rejection sampling in the bounding box), at least `margin` from the outline
+pub fn interior_point(r: &mut Rng, p: &[P2], margin: f64) -> Option<P2> {
+    let b = bbox2(p);
+    for _ in 0..200 {
+        let q = (r.range(b.0, b.2), r.range(b.1, b.3));
+        if inside2(p, q) && dist_to_outline(p, q) > margin { return Some(q); }
+    }
+    None
+}
